@@ -152,11 +152,13 @@ static Prob generate(Rng& r, int klass, int solver, long ci) {
     int m = nIdle;
     for (int k = 0; k < nUnc; ++k) { int s = (klass == K_BILATERAL) ? 1 : r.integer(1, r.coin(0.2) ? 6 : 3); uncSizes.push_back(s); m += s; }
     std::vector<Con> cons(nCon);
+    const bool plusPositive = solver == S_PLUS && r.coin(0.7);   // PLUS: most problems keep frictional contacts at sign +1 (see class negative-sign-friction)
     for (auto& c : cons) {
         c.sign = r.coin(0.5) ? 1 : -1; c.mu = r.coin(0.1) ? 0.0 : r.uni(0.05, 1.2);
         bool fr = r.coin(pFric);
         double u = r.uni();
         c.type = u < pKnown ? IS::Known : (u < pKnown + pObs ? IS::Observing : IS::Participating);
+        if (fr && plusPositive) c.sign = 1;
         m += 1 + (fr ? 2 : 0); if (fr) c.Fk.assign(2, -1);
     }
     std::vector<int> clfF(nClf), slfF(nSlf);
@@ -426,14 +428,23 @@ static void jacobiEig(std::vector<LD>& M, int n, std::vector<LD>& w, std::vector
 // ------------------------------------------------------------------ oracles
 // Keys.  <condition>:<solver>:<row kind>[:<input class>]
 //  * hard conditions (inequalities the algorithms enforce explicitly; bookkeeping) never carry an input class;
-//  * PLUS "soft" conditions (they need the Newton iteration of every sliding interval to have converged, which
-//    the solver does not report) carry the input class of the problem: "" (full-rank A, one proven sliding
-//    interval), ":rankdef" (rank-deficient A), ":multi" (several / unproven number of sliding intervals);
+//  * PLUS "soft" conditions need the Newton iteration of every sliding interval to have converged, which the
+//    solver does not report. They keep their specific key only in the benign input class (full-rank A, every
+//    frictional Participating contact has sign +1, no contact ends Impending, one proven sliding interval);
+//    otherwise they map to ONE key per input class, "soft-conditions:PLUS:solve:<class>", class = first of
+//    rank-deficient-A, negative-sign-friction, impending-slip, multi-interval (condition name in the witness);
 //  * every PLUS::solve condition that involves the resulting velocity when D != 0 maps to "eq-with-D:PLUS:solve"
 //    (one root cause: D is ignored).
 struct Judge {
     Ctx& c; const Prob& P; const Out& O; int solver; int klass; bool bilateral;
     std::string sn, plusClass;
+    bool skipSoft = false;          // PLUS, not designed, some contact slides initially: existence of a solution of the
+                                    // solver's frozen-direction sliding model is not guaranteed -> soft conditions not judged
+    void chk(const std::string& key, double resid, double tol, const std::function<Json()>& wit) const {
+        if (key.empty()) { c.obs("PLUS:soft-condition-not-judged:generic-initial-sliding"); return; }
+        c.check(key, resid, tol, wit);
+    }
+    mutable std::string lastCond;   // condition name of the most recent soft key (goes into the witness of collapsed keys)
     std::vector<LD> vf;         // harness-recomputed resulting velocities  tot_in - (A+D)(pi+piE)
     VD tolEq;                   // per-row tolerance for "this row's equation is enforced"
     VD rowAbs;                  // sum of |terms| per row (rounding scale)
@@ -442,13 +453,27 @@ struct Judge {
     Json base() const {
         Json w = Json::obj(); w.set("solver", sn).set("klass", KN[klass]).set("m", P.m).set("p", (int)P.part.size()).set("rank", P.rankClass)
             .set("D", P.dClass).set("designed", P.designed).set("applied", !P.verrApplied.empty()).set("maxRoll", P.maxRoll).set("ctol", ctol).set("ret", O.ret);
+        if (!plusClass.empty()) w.set("plusClass", plusClass);
+        if (!lastCond.empty()) w.set("condition", lastCond);
         return w;
     }
     // soft condition on impulses only
-    std::string softKey(const std::string& cond, const std::string& kind) const { return cond + ":" + sn + ":" + kind + (solver == S_PLUS ? plusClass : std::string()); }
+    std::string softKey(const std::string& cond, const std::string& kind) const {
+        lastCond.clear();
+        if (solver == S_PLUS && skipSoft) return std::string();
+        if (solver == S_PLUS && !plusClass.empty()) { lastCond = cond + ":" + kind; return "soft-conditions:PLUS:solve:" + plusClass; }
+        return cond + ":" + sn + ":" + kind;
+    }
+    // PGS: stationarity of an element the solver reports as clamped (off / at a bound / sliding). The solver's convergence
+    // measure leaves clamped rows out, so it can report convergence while they are still moving: one key.
+    std::string clampKey(const std::string& cond, const std::string& kind) const {
+        if (solver == S_PGS) { lastCond = cond + ":" + kind; return "converged-with-nonstationary-clamped-row:PGS:solve"; }
+        return velKey(cond, kind);
+    }
     // soft condition that involves the resulting velocity
     std::string velKey(const std::string& cond, const std::string& kind) const {
-        if (solver == S_PLUS && !bilateral && P.dpos()) return "eq-with-D:PLUS:solve";
+        if (solver == S_PLUS && skipSoft) return std::string();
+        if (solver == S_PLUS && !bilateral && P.dpos()) { lastCond = cond + ":" + kind; return "eq-with-D:PLUS:solve"; }
         return softKey(cond, kind);
     }
 };
@@ -515,16 +540,17 @@ static void judge(Ctx& c, const Prob& P, const Out& O, int solver, int klass, bo
     //  PGS : stops when the RMS over p rows of the *pre-update* row errors is < ctol; rows updated later in the
     //        same sweep move row r by at most sum_c |A_rc| * sor*|e_c|/(A_cc+D_c), |e_c| <= ctol*sqrt(p), plus the
     //        motion of the clamped rows (measured above).
-    double worstNat = 0;
-    for (int i = 0; i < m; ++i) {
+    // tolRow(i, excl): tolerance of row i, leaving out the motion of the rows in `excl` (the element's own rows when
+    // the condition being judged *is* the stationarity of that clamped element)
+    auto tolRow = [&](int i, const VI& excl) {
         double round = 200 * EPS * (m + 4) * J.rowAbs[i];
-        if (solver == S_PLUS) J.tolEq[i] = 10 * J.ctol + round;
-        else {
-            double g = 1, cl = 0; for (int x : P.part) { double dd = diag(x); if (dd > 0) g += 1.2 * std::fabs(P.a(i, x)) / dd; cl += std::fabs(P.a(i, x)) * natStep[x]; }
-            J.tolEq[i] = 2 * J.ctol * std::sqrt((double)std::max(1, p)) * g + 3 * cl + round;
-            worstNat = std::max(worstNat, cl);
-        }
-    }
+        if (solver == S_PLUS) return 10 * J.ctol + round;
+        double g = 1, cl = 0;
+        for (int x : P.part) { double dd = diag(x); if (dd > 0) g += 1.2 * std::fabs(P.a(i, x)) / dd;
+            if (std::find(excl.begin(), excl.end(), x) == excl.end()) cl += std::fabs(P.a(i, x)) * natStep[x]; }
+        return 2 * J.ctol * std::sqrt((double)std::max(1, p)) * g + 3 * cl + round;
+    };
+    for (int i = 0; i < m; ++i) J.tolEq[i] = tolRow(i, VI());
 
     // ---- returned verr equals input - (A+D)(pi+piExpand)
     if (!bilateral) {
@@ -552,7 +578,14 @@ static void judge(Ctx& c, const Prob& P, const Out& O, int solver, int klass, bo
         }
         c.obs(plusSingle ? (nInitSliding ? "PLUS:single-interval-proved" : "PLUS:no-initial-sliding") : "PLUS:multi-interval");
         const bool rankdef = P.rankClass == "deficient" || P.rankClass == "duprows";
-        J.plusClass = std::string(rankdef ? ":rankdef" : "") + (plusSingle ? "" : ":multi");
+        bool negsign = false, impending = false;
+        for (size_t k = 0; k < P.con.size(); ++k) {
+            if (P.con[k].type == IS::Participating && !P.con[k].Fk.empty() && P.con[k].sign < 0) negsign = true;
+            if (P.con[k].type != IS::Observing && !P.con[k].Fk.empty() && O.con[k].fcond == IS::Impending) impending = true;
+        }
+        J.plusClass = rankdef ? "rank-deficient-A" : negsign ? "negative-sign-friction" : impending ? "impending-slip" : !plusSingle ? "multi-interval" : "";
+        J.skipSoft = !P.designed && nInitSliding > 0;
+        c.obs("PLUS:class:" + (J.plusClass.empty() ? std::string("benign") : J.plusClass) + (J.skipSoft ? ":soft-not-judged" : ""));
     }
     const bool eqOK = (solver == S_PGS) || plusSingle;     // equalities tied to the last reported condition
 
@@ -560,7 +593,7 @@ static void judge(Ctx& c, const Prob& P, const Out& O, int solver, int klass, bo
     auto eqRows = [&](const VI& rows, const std::string& key, const char* what) {
         double worst = 0; int wi = -1;
         for (int x : rows) { double q = std::fabs(vfD(x)) / J.tolEq[x]; if (q > worst) { worst = q; wi = x; } }
-        c.check(key, worst, 1.0, [&] { return W().set("what", what).set("row", wi).set("verr", wi >= 0 ? vfD(wi) : 0.0).set("tol", wi >= 0 ? J.tolEq[wi] : 0.0); });
+        J.chk(key, worst, 1.0, [&] { return W().set("what", what).set("row", wi).set("verr", wi >= 0 ? vfD(wi) : 0.0).set("tol", wi >= 0 ? J.tolEq[wi] : 0.0); });
     };
     { VI rows; for (auto& u : P.unc) for (int x : u) rows.push_back(x);
       if (!rows.empty()) eqRows(rows, J.velKey("uncond-residual", op), "unconditional row"); }
@@ -605,10 +638,10 @@ static void judge(Ctx& c, const Prob& P, const Out& O, int solver, int klass, bo
         } else {
             c.check("uni-never-pull:" + sn, cc.sign * piN, tolAbsImp * (1 + N), WC);
             if (!c.require("uni-cond-reported:" + sn, oc.cond == IS::UniActive || oc.cond == IS::UniOff, WC)) continue;
-            if (oc.cond == IS::UniActive) c.check(J.velKey("uni-active-verr", "contact"), std::fabs(vfD(cc.Nk)), J.tolEq[cc.Nk], WC);
+            if (oc.cond == IS::UniActive) J.chk(J.velKey("uni-active-verr", "contact"), std::fabs(vfD(cc.Nk)), J.tolEq[cc.Nk], WC);
             else {
                 if (eqOK) c.check("uni-off-impulse-zero:" + sn, std::fabs(piN), 0, WC);
-                c.check(J.velKey("uni-off-separating", "contact"), -cc.sign * vfD(cc.Nk), J.tolEq[cc.Nk], WC);
+                J.chk(J.clampKey("uni-off-separating", "contact"), -cc.sign * vfD(cc.Nk), tolRow(cc.Nk, VI(1, cc.Nk)), WC);
             }
         }
         if (!fr) continue;
@@ -616,34 +649,35 @@ static void judge(Ctx& c, const Prob& P, const Out& O, int solver, int klass, bo
         const double pFn = std::hypot(pF[0], pF[1]), vFn = std::hypot(vF[0], vF[1]);
         // cone: Newton leaves |v|*pi_F + mu*v*piz = err, ||err|| <= ctol with |v| > maxRoll  (PLUS); PGS scales onto the cone
         const double tolCone = (solver == S_PLUS ? 10 * J.ctol / P.maxRoll * 4 : 0) + 1e-11 * (1 + cc.mu * N) + 64 * EPS * (cc.mu * N + pFn);
-        c.check(J.softKey("friction-cone", "contact"), pFn - cc.mu * N, tolCone, WC);
+        J.chk(J.softKey("friction-cone", "contact"), pFn - cc.mu * N, tolCone, WC);
         const bool normalOff = (cc.type == IS::Participating && oc.cond == IS::UniOff);
         if (normalOff) { if (eqOK) c.check("uni-off-friction-zero:" + sn, pFn, solver == S_PGS ? 0 : tolAbsImp, WC); continue; }
         if (!c.require("fric-cond-reported:" + sn + ":contact", oc.fcond == IS::Rolling || oc.fcond == IS::Sliding || oc.fcond == IS::Impending, WC)) continue;
         const double tolF = std::max(J.tolEq[cc.Fk[0]], J.tolEq[cc.Fk[1]]) * 1.5;
         if (oc.fcond == IS::Rolling) {
-            c.check(J.velKey("rolling-slip-zero", "contact"), vFn, tolF, WC);
+            J.chk(J.velKey("rolling-slip-zero", "contact"), vFn, tolF, WC);
         } else if (oc.fcond == IS::Sliding) {
-            if (eqOK) c.check(J.softKey("sliding-on-cone", "contact"), std::fabs(pFn - cc.mu * N), tolCone, WC);
+            if (eqOK) J.chk(J.softKey("sliding-on-cone", "contact"), std::fabs(pFn - cc.mu * N), tolCone, WC);
             if (solver == S_PLUS) {
                 if (plusSingle) {
                     // friction multiplier = mu*N * (reported = input slip direction)
                     double sm = std::hypot(oc.sv[0], oc.sv[1]);
                     c.require("sliding-reported-speed-above-threshold:PLUS:contact", sm > P.maxRoll, WC);
                     double e = std::hypot(pF[0] - cc.mu * N * oc.sv[0] / sm, pF[1] - cc.mu * N * oc.sv[1] / sm);
-                    c.check(J.softKey("sliding-opposes-slip", "contact"), e, tolCone, WC);
+                    J.chk(J.softKey("sliding-opposes-slip", "contact"), e, tolCone, WC);
                 }
             } else {
                 // PGS: dissipative: pi_F . v_F(final) >= 0 in the multiplier sign convention
-                c.check("sliding-opposes-slip:PGS:contact", -(pF[0] * vF[0] + pF[1] * vF[1]), tolF * (pFn + 1e-3) + 1e-12, WC);
+                const double tolOwn = std::max(tolRow(cc.Fk[0], cc.Fk), tolRow(cc.Fk[1], cc.Fk)) * 1.5;
+                J.chk(J.clampKey("sliding-opposes-slip", "contact"), -(pF[0] * vF[0] + pF[1] * vF[1]), tolOwn * (pFn + 1e-3) + 1e-12, WC);
             }
         } else { // Impending (PLUS only): on the cone, opposing the slip that results
             c.obs("PLUS:impending-reported");
             if (solver == S_PGS) { c.viol("impending-reported:PGS:contact", WC()); continue; }
             if (nInitSliding == 0) {        // single interval for sure
-                c.check(J.softKey("impending-on-cone", "contact"), std::fabs(pFn - cc.mu * N), tolCone + 10 * J.ctol / std::max(vFn, 1e-3), WC);
+                J.chk(J.softKey("impending-on-cone", "contact"), std::fabs(pFn - cc.mu * N), tolCone + 10 * J.ctol / std::max(vFn, 1e-3), WC);
                 // resulting slip v_F must be opposed: pi_F = +mu*N*v_F/|v_F| (multiplier convention), at least pi_F.v_F >= 0
-                c.check(J.velKey("impending-opposes-slip", "contact"), -(pF[0] * vF[0] + pF[1] * vF[1]), 1e-9 * (1 + pFn * vFn), WC);
+                J.chk(J.velKey("impending-opposes-slip", "contact"), -(pF[0] * vF[0] + pF[1] * vF[1]), 1e-9 * (1 + pFn * vFn), WC);
             }
         }
     }
@@ -656,8 +690,8 @@ static void judge(Ctx& c, const Prob& P, const Out& O, int solver, int klass, bo
         // a solver that never reports a condition for this row kind does not implement it: one key, nothing else judged
         if (!c.require("row-kind-not-implemented:" + sn + ":unispeed", cond == IS::UniActive || cond == IS::UniOff, WS)) continue;
         c.check("unispeed-never-pull:" + sn, s.sign * pi, tolAbsImp * (1 + std::fabs(pi)), WS);
-        if (cond == IS::UniActive) c.check(J.velKey("unispeed-active-verr", "unispeed"), std::fabs(vfD(s.ix)), J.tolEq[s.ix], WS);
-        else { c.check("unispeed-off-impulse-zero:" + sn, std::fabs(pi), 0, WS); c.check(J.velKey("unispeed-off-separating", "unispeed"), -s.sign * vfD(s.ix), J.tolEq[s.ix], WS); }
+        if (cond == IS::UniActive) J.chk(J.velKey("unispeed-active-verr", "unispeed"), std::fabs(vfD(s.ix)), J.tolEq[s.ix], WS);
+        else { c.check("unispeed-off-impulse-zero:" + sn, std::fabs(pi), 0, WS); J.chk(J.clampKey("unispeed-off-separating", "unispeed"), -s.sign * vfD(s.ix), tolRow(s.ix, VI(1, s.ix)), WS); }
     }
 
     // ---- bounded rows
@@ -667,9 +701,9 @@ static void judge(Ctx& c, const Prob& P, const Out& O, int solver, int klass, bo
         c.cover(sn + ":bounded:" + IS::getBndCondName((IS::BndCond)cond));
         if (!c.require("row-kind-not-implemented:" + sn + ":bounded", cond >= IS::SlipLow && cond <= IS::SlipHigh, WB)) continue;
         c.check("bounded-within:" + sn, std::max(pi - b.ub, b.lb - pi), 64 * EPS * (std::fabs(b.lb) + std::fabs(b.ub)), WB);
-        if (cond == IS::Engaged) c.check(J.velKey("bounded-engaged-verr", "bounded"), std::fabs(vfD(b.ix)), J.tolEq[b.ix], WB);
-        else if (cond == IS::SlipHigh || cond == IS::ImpendHigh) { c.check("bounded-high-at-ub:" + sn, std::fabs(pi - b.ub), 64 * EPS * std::fabs(b.ub), WB); c.check(J.velKey("bounded-clamped-verr-sign", "bounded"), -vfD(b.ix), J.tolEq[b.ix], WB); }
-        else { c.check("bounded-low-at-lb:" + sn, std::fabs(pi - b.lb), 64 * EPS * std::fabs(b.lb), WB); c.check(J.velKey("bounded-clamped-verr-sign", "bounded"), vfD(b.ix), J.tolEq[b.ix], WB); }
+        if (cond == IS::Engaged) J.chk(J.velKey("bounded-engaged-verr", "bounded"), std::fabs(vfD(b.ix)), J.tolEq[b.ix], WB);
+        else if (cond == IS::SlipHigh || cond == IS::ImpendHigh) { c.check("bounded-high-at-ub:" + sn, std::fabs(pi - b.ub), 64 * EPS * std::fabs(b.ub), WB); J.chk(J.clampKey("bounded-clamped-verr-sign", "bounded"), -vfD(b.ix), tolRow(b.ix, VI(1, b.ix)), WB); }
+        else { c.check("bounded-low-at-lb:" + sn, std::fabs(pi - b.lb), 64 * EPS * std::fabs(b.lb), WB); J.chk(J.clampKey("bounded-clamped-verr-sign", "bounded"), vfD(b.ix), tolRow(b.ix, VI(1, b.ix)), WB); }
     }
 
     // ---- state-limited and constraint-limited friction
@@ -682,8 +716,9 @@ static void judge(Ctx& c, const Prob& P, const Out& O, int solver, int klass, bo
         if (!c.require("row-kind-not-implemented:" + sn + ":" + kind, cond == IS::Rolling || cond == IS::Sliding || cond == IS::Impending, WL)) return;
         const double tolCone = 1e-11 * (1 + lim) + 64 * EPS * (lim + pn);
         c.check("friction-cone:" + sn + ":" + kind, pn - lim, tolCone, WL);
-        if (cond == IS::Rolling) c.check(J.velKey("rolling-slip-zero", kind), vn, tolF, WL);
-        else { c.check("sliding-on-cone:" + sn + ":" + kind, std::fabs(pn - lim), tolCone, WL); c.check("sliding-opposes-slip:" + sn + ":" + kind, -dot, tolF * (pn + 1e-3) + 1e-12, WL); }
+        if (cond == IS::Rolling) J.chk(J.velKey("rolling-slip-zero", kind), vn, tolF, WL);
+        else { double tolOwn = 0; for (int x : Fk) tolOwn = std::max(tolOwn, tolRow(x, Fk)); tolOwn *= std::sqrt((double)Fk.size());
+               c.check("sliding-on-cone:" + sn + ":" + kind, std::fabs(pn - lim), tolCone, WL); J.chk(J.clampKey("sliding-opposes-slip", kind), -dot, tolOwn * (pn + 1e-3) + 1e-12, WL); }
     };
     for (size_t k = 0; k < P.slf.size(); ++k) ltd(P.slf[k].Fk, P.slf[k].mu * P.slf[k].knownN, O.slfCond[k], "state-ltd", (int)k);
     for (size_t k = 0; k < P.clf.size(); ++k) { double n2 = 0; for (int x : P.clf[k].Nk) n2 += O.pi[x] * O.pi[x]; ltd(P.clf[k].Fk, P.clf[k].mu * std::sqrt(n2), O.clfCond[k], "cons-ltd", (int)k); }
@@ -727,6 +762,11 @@ static void oneCase(Ctx& c, long ci, Rng& r, long onlyKlass, long onlySolver) {
     }
     c.setPhase(std::string("generate ") + sn + " " + KN[klass]);
     Prob P = generate(r, klass, solver, ci);
+    if (c.args.getInt("mirror", 0)) {      // diagnostic: the equivalent problem with every contact at sign +1 (S*A*S, S*verr)
+        for (auto& cc : P.con) if (cc.sign < 0) { const int n = cc.Nk;
+            for (int j = 0; j < P.m; ++j) if (j != n) { P.A[(size_t)j * P.m + n] = -P.A[(size_t)j * P.m + n]; P.A[(size_t)n * P.m + j] = -P.A[(size_t)n * P.m + j]; }
+            P.verrStart[n] = -P.verrStart[n]; if (!P.verrApplied.empty()) P.verrApplied[n] = -P.verrApplied[n]; P.piExpand[n] = -P.piExpand[n]; cc.sign = 1; }
+    }
     const bool bilateral = klass == K_BILATERAL;
     const std::string op = bilateral ? "solveBilateral" : "solve";
     int mb = P.m <= 4 ? 0 : P.m <= 12 ? 1 : 2;
